@@ -1013,10 +1013,15 @@ class RouterWorld(BaseWorld):
         self.pkts = []
 
     # -- model helpers ------------------------------------------------------------
+    def explicit(self, ssrc):
+        return {r for r, d in self.r_reg.items() if ssrc in d["ssrcs"]}
+
     def claimants(self, ssrc):
-        c = {r for r, d in self.r_reg.items() if ssrc in d["ssrcs"]}
-        if ssrc in self.latched:
-            c.add(self.latched[ssrc])
+        """Receivers registered for the SSRC; an SSRC that merely stuck to a receiver belongs to it only as long as
+        nobody registers it ("the one registered for its SSRC")."""
+        c = self.explicit(ssrc)
+        if not c and ssrc in self.latched:
+            c = {self.latched[ssrc]}
         return c
 
     def s_claimants(self, ssrc):
@@ -1029,13 +1034,17 @@ class RouterWorld(BaseWorld):
             r = self.receivers[op["who"]]
             ssrcs = list(op["ssrcs"])
             if not self.cfg["overlap_ssrc"]:
-                ssrcs = [s for s in ssrcs if not (self.claimants(s) - {r})]
+                ssrcs = [s for s in ssrcs if not (self.explicit(s) - {r})]
             rt.register_receiver(r, ssrcs, list(op["pts"]), mid=op["mid"])
             d = self.r_reg.setdefault(r, {"ssrcs": set(), "pts": set()})
             d["ssrcs"].update(ssrcs)
             d["pts"].update(op["pts"])
             for s in ssrcs:
-                if len(self.claimants(s)) > 1:
+                if self.latched.get(s) not in (None, r):
+                    # early media had stuck to another receiver; the registration decides from now on
+                    del self.latched[s]
+                    self.probes["registration_over_stuck_ssrc"] += 1
+                if len(self.explicit(s)) > 1:
                     self.amb_r.add(s)
             self.log.add("reg_r", r.name, tuple(ssrcs), tuple(op["pts"]))
         elif k == "unreg_r":
